@@ -36,4 +36,4 @@ while end < len(L) and re.match(r'^\| C\d+-\d+ \|', L[end]):
 new = ['| %s | `%s` |' % (i, rows[i]) for i in ids]
 L[start + 2:end] = new
 open(p, 'w').write('\n'.join(L))
-print(len(ids), 'rows;', sum(1 for i in ids if rows[i].startswith('(')), 'not reported')
+print(len(ids), 'rows;', sum(1 for i in ids if rows[i] in ('(not reported)', '(patch does not apply)')), 'not reported')
